@@ -2,22 +2,26 @@
 (***************************************************************************)
 (* I-layer model of the trainer's segmentation pipeline                    *)
 (*   lib_trainer/pcfg_password_parser.py parse() and detection_rules/:     *)
-(*   year -> context-sensitive -> alpha -> digit -> other                  *)
+(*   keyboard walk -> e-mail -> website -> year -> context-sensitive ->    *)
+(*   alpha -> digit -> other                                               *)
 (* as exact stage functions over abstract characters, and the P-layer of   *)
 (* C05 (lossless tiling, no empty / untyped segment, sound labels).        *)
 (* The keyboard-walk stage is transcribed exactly as well (run tracking    *)
-(* per layout, the "interesting" filter); the e-mail and website stages    *)
-(* never fire on the model's alphabet (no '.') and are judged by soundness *)
-(* on real traces (TrSeg).  Multi-word splitting needs eight letters and   *)
-(* is judged on traces as well.                                            *)
+(* per layout, the "interesting" filter), and so are the e-mail and        *)
+(* website stages (TLD list in the code's order including its '.nl.se'     *)
+(* entry, first-occurrence search, the false-positive loop of the website  *)
+(* detector, host / prefix search, lower-cased website text).  Multi-word  *)
+(* splitting is modelled in MultiWord.tla and judged on traces.            *)
 (* A section is [t |-> Seq(char), k |-> kind ("" unlabelled), n |-> number]*)
 (***************************************************************************)
 EXTENDS Integers, Sequences, FiniteSets, TLC, SequencesExt
 
-CONSTANTS Alphabet,     \* abstract characters (strings of length 1: "a" "B" "q" "z" "1" "9" "2" "0" "#" "<" "3" "!" " ")
+CONSTANTS Alphabet,     \* characters (strings of length 1) out of: a B q z c o m w  1 9 2 0 3  # < ! space . @ /
           MaxLen
 
-Letters == {"a", "B", "q", "z"}
+Letters == {"a", "B", "q", "z", "c", "o", "m", "w", "b"}     \* "b" only arises as the lower-cased "B" of a website section
+Low(c) == IF c = "B" THEN "b" ELSE c
+LowSeq(t) == [i \in DOMAIN t |-> Low(t[i])]
 Digits == {"1", "9", "2", "0", "3"}
 IsA(c) == c \in Letters
 IsD(c) == c \in Digits
@@ -39,6 +43,9 @@ KeyPos(c) == CASE c = "1" -> { <<1, 1, 0>>, <<2, 1, 0>> } [] c = "2" -> { <<1, 1
                [] c = "0" -> { <<1, 1, 9>>, <<2, 1, 9>> } [] c = "!" -> { <<1, 1, 0>>, <<2, 1, 0>> }
                [] c = "#" -> { <<1, 1, 2>> } [] c = "q" -> { <<1, 2, 0>> } [] c = "a" -> { <<1, 3, 0>> }
                [] c = "z" -> { <<1, 4, 0>> } [] c = "B" -> { <<1, 4, 4>> } [] c = "<" -> { <<1, 4, 7>> }
+               [] c = "c" -> { <<1, 4, 2>> } [] c = "m" -> { <<1, 4, 6>> } [] c = "o" -> { <<1, 2, 8>> }
+               [] c = "w" -> { <<1, 2, 1>> } [] c = "." -> { <<1, 4, 8>> } [] c = "/" -> { <<1, 4, 9>>, <<2, 2, 12>> }
+               [] c = "@" -> { <<1, 1, 1>> }
                [] OTHER -> {}
 (* is_next_on_keyboard: layouts on which `cur` is a neighbour of `past` (same key does not count) *)
 NextOn(p, q) == /\ p[1] = q[1] /\ ~(p[2] = q[2] /\ p[3] = q[3])
@@ -75,6 +82,64 @@ KScan(pw, i, past, runs, combo) ==
 KW(pw) == KScan(pw, 1, "", {}, <<>>)
 KeyboardStage(sl) == KW(sl[1].t)        \* the first stage works on the whole password
 
+(* ---- e-mail and website detection ---- *)
+Stage(sl, F(_)) == FlattenSeq([i \in DOMAIN sl |-> IF NoLab(sl[i]) THEN F(sl[i].t) ELSE <<sl[i]>>])
+(* tld_list.py, in the code's order; '.nl' '.se' lack a comma in the source and are ONE entry *)
+Tlds == << <<".", "c", "o", "m">>, <<".", "o", "r", "g">>, <<".", "e", "d", "u">>, <<".", "g", "o", "v">>, <<".", "u", "k">>,
+           <<".", "n", "e", "t">>, <<".", "c", "a">>, <<".", "d", "e">>, <<".", "j", "p">>, <<".", "f", "r">>, <<".", "a", "u">>,
+           <<".", "u", "s">>, <<".", "r", "u">>, <<".", "c", "h">>, <<".", "i", "t">>, <<".", "n", "l", ".", "s", "e">>,
+           <<".", "n", "o">>, <<".", "e", "s">>, <<".", "m", "i", "l">> >>
+OccFrom(t, r, from) == { i \in from..(Len(t) - Len(r) + 1) : SubSeq(t, i, i + Len(r) - 1) = r }
+FindFrom(t, r, from) == IF OccFrom(t, r, from) = {} THEN 0 ELSE CHOOSE i \in OccFrom(t, r, from) : \A j \in OccFrom(t, r, from) : i <= j
+RFind(t, r) == LET o == OccFrom(t, r, 1) IN IF o = {} THEN 0 ELSE CHOOSE i \in o : \A j \in o : i >= j     \* str.rfind, 1-based, 0 = none
+Has(t, c) == \E i \in DOMAIN t : t[i] = c
+MinOf(S) == CHOOSE k \in S : \A j \in S : k <= j
+
+(* detect_email: the first TLD of the list whose FIRST occurrence has an '@' somewhere before its end; the e-mail is *)
+(* everything up to the end of that TLD; the remainder is examined again by the loop of email_detection            *)
+RECURSIVE EmailSec(_)
+EmailSec(t) ==
+   LET ws == LowSeq(t)
+       ok(k) == LET p == FindFrom(ws, Tlds[k], 1) IN p # 0 /\ \E j \in 1..(p + Len(Tlds[k]) - 1) : ws[j] = "@"
+       cands == { k \in DOMAIN Tlds : ok(k) } IN
+   IF ~Has(ws, ".") \/ ~Has(ws, "@") \/ cands = {} THEN <<Sec(t, "", 0)>>
+   ELSE LET k == MinOf(cands)
+            e == FindFrom(ws, Tlds[k], 1) + Len(Tlds[k]) - 1 IN
+        <<Sec(SubSeq(t, 1, e), "E", 0)>> \o (IF e = Len(t) THEN <<>> ELSE EmailSec(SubSeq(t, e + 1, Len(t))))
+EmailStage(sl) == Stage(sl, EmailSec)
+
+(* detect_website: for each TLD in order, its first occurrence that is at the end of the section or followed by *)
+(* something that is neither a letter nor '.'; occurrences failing that test are skipped (false-positive loop)  *)
+RECURSIVE WAccept(_, _, _)
+WAccept(ws, tld, from) ==
+   LET p == FindFrom(ws, tld, from) IN
+   IF p = 0 THEN 0
+   ELSE IF p + Len(tld) - 1 = Len(ws) THEN p
+   ELSE IF IsA(ws[p + Len(tld)]) \/ ws[p + Len(tld)] = "." THEN WAccept(ws, tld, p + Len(tld))
+   ELSE p
+Http == <<"h", "t", "t", "p", ":", "/", "/">>
+Www == <<"w", "w", "w", ".">>
+RECURSIVE WebSec(_)
+WebSec(t) ==
+   LET ws == LowSeq(t)
+       cands == { k \in DOMAIN Tlds : WAccept(ws, Tlds[k], 1) # 0 } IN
+   IF ~Has(ws, ".") \/ cands = {} THEN <<Sec(t, "", 0)>>
+   ELSE LET tld == Tlds[MinOf(cands)]
+            p == WAccept(ws, tld, 1)                    \* 1-based start of the TLD (total_index + 1)
+            e == p + Len(tld) - 1                       \* 1-based last character of the TLD
+            eou == IF e = Len(ws) THEN e ELSE IF ws[e + 1] = "/" THEN Len(ws) ELSE e          \* end_of_url
+            before == SubSeq(ws, 1, p - 1)              \* working_string[:total_index]
+            hs == RFind(before, <<".">>)                \* 0-based start_index = rfind('.') + 1 = hs (1-based position of that '.')
+            \* prefix searches: rfind in working_string[:start_index + 1] resp. [:start_index]   (0 = not found)
+            p1 == RFind(SubSeq(ws, 1, hs + 1), Http \o Www)
+            p2 == RFind(SubSeq(ws, 1, hs), Http)
+            p3 == RFind(SubSeq(ws, 1, hs), Www)
+            sou == IF p1 # 0 THEN p1 ELSE IF p2 # 0 THEN p2 ELSE IF p3 # 0 THEN p3 ELSE 1     \* 1-based start_of_url
+        IN (IF sou = 1 THEN <<>> ELSE <<Sec(SubSeq(t, 1, sou - 1), "", 0)>>)                     \* not examined again
+           \o <<Sec(SubSeq(ws, sou, eou), "W", 0)>>                                              \* lower-cased text
+           \o (IF eou = Len(t) THEN <<>> ELSE WebSec(SubSeq(t, eou + 1, Len(t))))
+WebStage(sl) == Stage(sl, WebSec)
+
 (* ---- year_detection: first occurrence (prefix "19" tried before "20") of 19xx / 20xx not touching digits ---- *)
 YearAt(t, i, p) == /\ i + 3 <= Len(t) /\ t[i] = p[1] /\ t[i + 1] = p[2]
                    /\ IsD(t[i + 2]) /\ IsD(t[i + 3])
@@ -89,7 +154,6 @@ YearSec(t) == LET i == FirstYear(t) IN
               ELSE (IF i = 1 THEN <<>> ELSE YearSec(SubSeq(t, 1, i - 1)))
                    \o <<Sec(SubSeq(t, i, i + 3), "Y", 1)>>
                    \o (IF i + 4 > Len(t) THEN <<>> ELSE YearSec(SubSeq(t, i + 4, Len(t))))
-Stage(sl, F(_)) == FlattenSeq([i \in DOMAIN sl |-> IF NoLab(sl[i]) THEN F(sl[i].t) ELSE <<sl[i]>>])
 YearStage(sl) == Stage(sl, YearSec)
 
 (* ---- context_sensitive_detection: first list entry that occurs (its first occurrence); "#1" not followed by ---- *)
@@ -120,7 +184,7 @@ AlphaStage(sl) == Stage(sl, LAMBDA t : Runs(t, IsA, "A"))
 DigitStage(sl) == Stage(sl, LAMBDA t : Runs(t, IsD, "D"))
 OtherStage(sl) == [i \in DOMAIN sl |-> IF NoLab(sl[i]) THEN Sec(sl[i].t, "O", Len(sl[i].t)) ELSE sl[i]]
 
-Pipeline(pw) == OtherStage(DigitStage(AlphaStage(CtxStage(YearStage(KeyboardStage(<<Sec(pw, "", 0)>>))))))
+Pipeline(pw) == OtherStage(DigitStage(AlphaStage(CtxStage(YearStage(WebStage(EmailStage(KeyboardStage(<<Sec(pw, "", 0)>>))))))))
 
 ---------------------------------------------------------------------------
 VARIABLES pw, stage, sl
@@ -128,13 +192,18 @@ vars == <<pw, stage, sl>>
 Strings == UNION { [1..n -> Alphabet] : n \in 1..MaxLen }
 Init == pw \in Strings /\ stage = "input" /\ sl = <<Sec(pw, "", 0)>>
 Step(from, to, F(_)) == stage = from /\ stage' = to /\ sl' = F(sl) /\ UNCHANGED pw
-Next == \/ Step("input", "keyboard", KeyboardStage) \/ Step("keyboard", "year", YearStage) \/ Step("year", "context", CtxStage)
+Next == \/ Step("input", "keyboard", KeyboardStage) \/ Step("keyboard", "email", EmailStage) \/ Step("email", "website", WebStage)
+        \/ Step("website", "year", YearStage) \/ Step("year", "context", CtxStage)
         \/ Step("context", "alpha", AlphaStage) \/ Step("alpha", "digit", DigitStage)
         \/ Step("digit", "other", OtherStage)
 Spec == Init /\ [][Next]_vars
 
 (* ---- P-layer ---- *)
-Tiling == Texts(sl) = pw                                   \* at every stage
+(* at every stage; website sections hold lower-cased text, everything else the original characters *)
+Tiling == /\ LowSeq(Texts(sl)) = LowSeq(pw)
+          /\ LET off(i) == Len(Texts(SubSeq(sl, 1, i - 1))) IN
+             \A i \in DOMAIN sl : IF sl[i].k = "W" THEN sl[i].t = LowSeq(SubSeq(pw, off(i) + 1, off(i) + Len(sl[i].t)))
+                                                     ELSE sl[i].t = SubSeq(pw, off(i) + 1, off(i) + Len(sl[i].t))
 NoEmpty == \A i \in DOMAIN sl : sl[i].t # <<>>
 Sound(s) == /\ s.k \in {"A", "D", "O"} => s.n = Len(s.t)
             /\ s.k = "A" => \A i \in DOMAIN s.t : IsA(s.t[i])
@@ -142,6 +211,9 @@ Sound(s) == /\ s.k \in {"A", "D", "O"} => s.n = Len(s.t)
             /\ s.k = "O" => \A i \in DOMAIN s.t : ~IsA(s.t[i]) /\ ~IsD(s.t[i])
             /\ s.k = "Y" => Len(s.t) = 4 /\ (\A i \in 1..4 : IsD(s.t[i])) /\ <<s.t[1], s.t[2]>> \in { <<"1", "9">>, <<"2", "0">> }
             /\ s.k = "X" => \E k \in DOMAIN Context : Context[k] = s.t
+            /\ s.k = "E" => Has(s.t, "@") /\ \E k \in DOMAIN Tlds : Len(s.t) >= Len(Tlds[k])
+                                                     /\ LowSeq(SubSeq(s.t, Len(s.t) - Len(Tlds[k]) + 1, Len(s.t))) = Tlds[k]
+            /\ s.k = "W" => s.t = LowSeq(s.t) /\ \E k \in DOMAIN Tlds : OccFrom(s.t, Tlds[k], 1) # {}
             /\ s.k = "K" => /\ s.n = Len(s.t) /\ Len(s.t) >= 4 /\ ClassCount(s.t) >= 2
                             /\ \E b \in {1, 2} : \A i \in 1..(Len(s.t) - 1) : b \in AdjBoards(s.t[i], s.t[i + 1])
 AllSound == \A i \in DOMAIN sl : Sound(sl[i])
